@@ -104,7 +104,25 @@ class Driver:
         line = line.strip()
         if line.startswith("!"):
             raise RuntimeError("driver: " + line)
+        self._record(entry, obj, line)
         return dec(line)
+
+    def _record(self, entry, obj, reply):
+        """keep a small sample of (entry, request, reply) for the extraction cross-check: check.py
+        re-evaluates them inside Coq (vm_compute on the same Run.v entry) and compares"""
+        self.ncalls = getattr(self, "ncalls", 0) + 1
+        if self.ncalls > 3 and (self.ncalls % 37) != 0:
+            return
+        req = enc(obj)
+        if len(req) + len(reply) > 1500:
+            return
+        try:
+            d = os.path.join(os.path.dirname(self.path), "xcheck")
+            os.makedirs(d, exist_ok=True)
+            with open(os.path.join(d, "%d.jsonl" % os.getpid()), "a") as f:
+                f.write(json.dumps({"entry": entry, "req": req, "reply": reply}) + "\n")
+        except OSError:
+            pass
 
     def call(self, entry, obj):
         """Returns the payload of an ok reply; raises ModelError(code) for a model error reply."""
